@@ -66,4 +66,182 @@ theorem indices_bounds {s : PySlice} {n : Nat} {a b c : Int} (h : s.indices n = 
       simp only [hneg, if_true] at ha hb
       cases st <;> cases sp <;> simp only at ha hb <;> (try split at ha) <;> (try split at hb) <;> omega
 
+/-! ### `slice_to_ascending_slice` arithmetic -/
+
+theorem rangeList_reverse_of {a b c a' b' : Int}
+    (hlen : rangeLen a' b' (-c) = rangeLen a b c)
+    (hst : 0 < rangeLen a b c → a' = a + ((rangeLen a b c : Nat) - 1 : Int) * c) :
+    rangeList a' b' (-c) = (rangeList a b c).reverse := by
+  apply List.ext_getElem
+  · simp [rangeList_length, hlen]
+  · intro k h1 h2
+    rw [List.getElem_reverse, rangeList_getElem, rangeList_getElem]
+    simp only [rangeList_length] at h1 h2 ⊢
+    have hpos : 0 < rangeLen a b c := by omega
+    rw [hst hpos]
+    have : ((rangeLen a b c - 1 - k : Nat) : Int) = (rangeLen a b c : Int) - 1 - k := by omega
+    rw [this]
+    grind
+
+theorem asc_core (n : Nat) (a ks d : Int) (hd : 0 < d) (han : a ≤ n - 1) :
+    rangeList (min (a - d * ((a - ks - 1) / d)) n) (a + 1) d
+      = (rangeList a (min ks (n-1)) (-d)).reverse := by
+  have hq1 : d * ((a - ks - 1) / d) ≤ a - ks - 1 := by
+    have := Int.mul_ediv_add_emod (a - ks - 1) d
+    have := Int.emod_nonneg (a - ks - 1) (b := d) (by omega)
+    omega
+  have hq2 : a - ks - 1 < d * ((a - ks - 1) / d) + d := by
+    have := Int.mul_ediv_add_emod (a - ks - 1) d
+    have := Int.emod_lt_of_pos (a - ks - 1) hd
+    omega
+  have hdd : - -d = d := by omega
+  have key := @rangeList_reverse_of a (min ks (n-1)) (-d) (min (a - d * ((a - ks - 1) / d)) n) (a+1)
+  rw [hdd] at key
+  generalize hq : (a - ks - 1) / d = q at *
+  by_cases hlt : ks < a
+  · have hb : min ks ((n : Int) - 1) = ks := by omega
+    have hq0 : 0 ≤ q := by rw [← hq]; exact Int.ediv_nonneg (by omega) (by omega)
+    have hp0 : 0 ≤ d * q := Int.mul_nonneg (by omega) hq0
+    have hlen1 : rangeLen a ks (-d) = (q + 1).toNat := by
+      unfold rangeLen
+      rw [if_neg (by omega), if_pos (by omega), if_pos hlt, hdd, hq]
+    have hx : min (a - d * q) (n : Int) = a - d * q := by omega
+    have hlen2 : rangeLen (a - d * q) (a + 1) d = (q + 1).toNat := by
+      unfold rangeLen
+      rw [if_pos (by omega), if_pos (by omega)]
+      have : a + 1 - (a - d * q) - 1 = d * q := by omega
+      rw [this, Int.mul_ediv_cancel_left _ (by omega)]
+    rw [hb, hx, hlen1, hlen2] at key
+    rw [hb, hx]
+    refine key rfl fun _ => ?_
+    have : (((q + 1).toNat : Nat) : Int) = q + 1 := by omega
+    rw [this]
+    grind
+  · have hlen1 : rangeLen a (min ks ((n : Int) - 1)) (-d) = 0 := by
+      unfold rangeLen
+      rw [if_neg (by omega), if_pos (by omega), if_neg (by omega)]
+    have hq0 : q < 0 := by rw [← hq]; exact Int.ediv_neg_of_neg_of_pos (by omega) hd
+    have hp : d * q ≤ d * (-1) := Int.mul_le_mul_of_nonneg_left (by omega) (by omega)
+    have hlen2 : rangeLen (min (a - d * q) (n : Int)) (a + 1) d = 0 := by
+      unfold rangeLen
+      rw [if_pos (by omega), if_neg (by omega)]
+    rw [hlen1, hlen2] at key
+    exact key rfl fun h => absurd h (by omega)
+
+
+theorem asc_start_nonneg (a ks d : Int) (hd : 0 < d) (hks : -1 ≤ ks) :
+    0 ≤ a - d * ((a - ks - 1) / d) := by
+  have := Int.mul_ediv_add_emod (a - ks - 1) d
+  have := Int.emod_nonneg (a - ks - 1) (b := d) (by omega)
+  omega
+
+theorem normStart_nonneg {st : Option Int} {n : Nat} {v : Int}
+    (h : normStart st n = some (some v)) : 0 ≤ v := by
+  unfold normStart at h
+  split at h
+  · cases h
+  · split at h
+    · split at h <;> simp at h; omega
+    · simp at h; omega
+
+theorem normStop_nonneg {sp : Option Int} {n : Nat} {v : Int}
+    (h : normStop sp n = some v) : 0 ≤ v := by
+  unfold normStop at h
+  split at h
+  · cases h
+  · split at h
+    · split at h <;> simp at h; omega
+    · simp at h; omega
+
+/-- clamped start of a negative-step slice, from the normalised start -/
+def negStart (st : Option Int) (n : Nat) : Int :=
+  match normStart st n with
+  | none => -1
+  | some none => n - 1
+  | some (some v) => min v (n - 1)
+
+/-- clamped stop of a negative-step slice, from the normalised stop -/
+def negStop (sp : Option Int) (n : Nat) : Int :=
+  match normStop sp n with
+  | none => -1
+  | some ks => min ks (n - 1)
+
+/-- `slice.indices(n)` of a negative-step slice in terms of the normalised endpoints. -/
+theorem indices_neg (st sp : Option Int) (c : Int) (hc : c < 0) (n : Nat) :
+    PySlice.indices ⟨st, sp, some c⟩ n = .ok (negStart st n, negStop sp n, c) := by
+  have hc0 : c ≠ 0 := by omega
+  unfold PySlice.indices
+  simp only [Option.getD_some, if_neg hc0, if_pos hc]
+  congr 2
+  · cases st with
+    | none => simp [negStart, normStart]
+    | some v =>
+      by_cases h1 : v < 0
+      · by_cases h2 : v + (n : Int) < 0
+        · simp only [negStart, normStart, if_pos h1, if_pos h2]; omega
+        · simp only [negStart, normStart, if_pos h1, if_neg h2]; omega
+      · simp only [negStart, normStart, if_neg h1]
+  · congr 1
+    cases sp with
+    | none => simp [negStop, normStop]
+    | some v =>
+      by_cases h1 : v < 0
+      · by_cases h2 : v + (n : Int) ≥ 0
+        · simp only [negStop, normStop, if_pos h1, if_pos h2]; omega
+        · simp only [negStop, normStop, if_pos h1, if_neg h2]; omega
+      · simp only [negStop, normStop, if_neg h1]
+
+/-- `slice.indices(n)` of a positive-step slice with non-negative endpoints. -/
+theorem indices_pos (st sp : Option Int) (d : Int) (hd : 0 < d) (n : Nat)
+    (hst : ∀ x, st = some x → 0 ≤ x) (hsp : ∀ x, sp = some x → 0 ≤ x) :
+    PySlice.indices ⟨st, sp, some d⟩ n = .ok (min (st.getD 0) n, min (sp.getD n) n, d) := by
+  have hc0 : d ≠ 0 := by omega
+  have hc : ¬ d < 0 := by omega
+  unfold PySlice.indices
+  simp only [Option.getD_some, if_neg hc0, if_neg hc]
+  cases st with
+  | none =>
+    cases sp with
+    | none => simp; omega
+    | some y => have := hsp y rfl; simp; omega
+  | some x =>
+    have := hst x rfl
+    cases sp with
+    | none => simp; omega
+    | some y => have := hsp y rfl; simp; omega
+
+theorem asc_positions (n : Nat) (st sp : Option Int) (kstart st' : Option Int) (c : Int) (hc : c < 0)
+    (hks : normStart st n = some kstart)
+    (hx : st'.getD 0 = negStart st n - (-c) * ((negStart st n - (normStop sp n).getD (-1) - 1) / (-c))) :
+    PySlice.positions ⟨st', kstart.map (· + 1), some (-c)⟩ n
+      = .ok ((rangeList (negStart st n) (negStop sp n) c).map Int.toNat).reverse := by
+  have hksv : -1 ≤ (normStop sp n).getD (-1) := by
+    cases hs : normStop sp n with
+    | none => simp
+    | some v => have := normStop_nonneg hs; simp; omega
+  have hx0 : ∀ x, st' = some x → 0 ≤ x := by
+    intro x hxx
+    subst hxx
+    simp only [Option.getD_some] at hx
+    rw [hx]
+    exact asc_start_nonneg _ _ _ (by omega) hksv
+  have hsp : ∀ x, kstart.map (· + 1) = some x → 0 ≤ x := by
+    intro x hxx
+    cases kstart with
+    | none => simp at hxx
+    | some v =>
+      have := normStart_nonneg hks
+      simp at hxx; omega
+  have han : negStart st n ≤ (n : Int) - 1 := by
+    unfold negStart; rw [hks]; cases kstart <;> simp <;> omega
+  have hstop : min ((kstart.map (· + 1)).getD (n : Int)) (n : Int) = negStart st n + 1 := by
+    unfold negStart; rw [hks]; cases kstart <;> simp <;> omega
+  have hb : negStop sp n = min ((normStop sp n).getD (-1)) ((n : Int) - 1) := by
+    unfold negStop; cases normStop sp n <;> simp <;> omega
+  unfold PySlice.positions
+  rw [indices_pos _ _ _ (by omega) n hx0 hsp]
+  simp only [hstop, hx, hb]
+  rw [asc_core n _ _ (-c) (by omega) han]
+  simp [List.map_reverse]
+
 end SF
